@@ -162,7 +162,7 @@ def features(body):
 # ------------------------------------------------------------------------------------------ renderers
 DATA = {  # data statements over two variables
     "ax": "x = %d", "ay": "y = %d", "yx": "y = x", "xy": "x = y", "ux": "s(x)", "uy": "s(y)", "inc": "x = x + %d", "cx": "c = x",
-    "ac": "c = %d", "yc": "y = c", "cond": "x = y if c > %d else c",
+    "ac": "c = %d", "yc": "y = c", "cond": "x = y if c > %d else c", "pass": "pass",
 }
 
 
